@@ -1,4 +1,5 @@
 import Seccomp.Proofs.Lemmas.Reject
+import Seccomp.Proofs.Lemmas.Accept
 import Seccomp.Proofs.C01
 /-!
 # C07 — invalid policies are rejected, never mis-compiled; valid ones are accepted
@@ -150,6 +151,83 @@ theorem accepted_names_known (p : Policy) (prog : List Instr)
     | none =>
       obtain ⟨e, he⟩ := defective_rejected ly (some A) p (.group A p g hg (.unknownCondName nc hnc ho))
       rw [h] at he; cases he
+
+theorem assembleGroups_ok_or_asm (hinj : NumInj A) : ∀ (gs : List Group), (∀ g ∈ gs, GroupValid A g) →
+    (∃ outs, assembleGroups A ly gs = .ok outs) ∨ (∃ e, assembleGroups A ly gs = .error (.asm e))
+  | [], _ => .inl ⟨[], rfl⟩
+  | g :: more, hv => by
+    simp only [assembleGroups]
+    have hg : (∃ out, assembleGroup A ly g = .ok out) ∨ (∃ e, assembleGroup A ly g = .error (.asm e)) := by
+      unfold assembleGroup
+      split
+      · exact .inl ⟨[], rfl⟩
+      · obtain ⟨ents, he⟩ := toEntries_ok A hinj g (hv g List.mem_cons_self)
+        simp only [he]
+        cases assemble (groupToks ly ents (enc g.action)) with
+        | error e => exact .inr ⟨e, rfl⟩
+        | ok out => exact .inl ⟨out, rfl⟩
+    rcases hg with ⟨out, ho⟩ | ⟨e, he⟩
+    · simp only [ho]
+      rcases assembleGroups_ok_or_asm hinj more (fun g' hg' => hv g' (List.mem_cons_of_mem _ hg')) with
+        ⟨outs, hos⟩ | ⟨e, hes⟩
+      · exact .inl ⟨out :: outs, by simp [hos]⟩
+      · exact .inr ⟨e, by simp [hes]⟩
+    · exact .inr ⟨e, by simp [he]⟩
+
+/-- **Valid ⇒ accepted, up to the label resolver** (`_partial`).  A policy with a named default action,
+    at least one group, a table in which different names have different numbers (true of every real
+    table, C12), and groups free of the listed defects passes every check of the compiler: the only
+    way `Assemble` can still fail is inside `Program.Assemble` (`CErr.asm`).  What is missing for the
+    full converse: that the resolver never fails on the label programs the group compiler builds (they
+    have forward jumps only, so by `C06.assemble_complete` only "useless jump" remains to be excluded).
+    The correspondence check exercises that part: every generated defect-free policy is accepted by
+    the real compiler and by the model (tens of thousands per thorough run, none rejected). -/
+theorem valid_accepted_partial (hinj : NumInj A) (p : Policy) (hd : p.default ∈ namedActions)
+    (hg : p.groups ≠ []) (hv : ∀ g ∈ p.groups, GroupValid A g) :
+    (∃ prog, assemblePolicy (some A) ly p = .ok prog) ∨ (∃ e, assemblePolicy (some A) ly p = .error (.asm e)) := by
+  unfold assemblePolicy
+  simp only [List.contains_eq_mem, hd, decide_true, Bool.not_true, Bool.false_eq_true, if_false,
+    List.isEmpty_iff, hg]
+  rcases assembleGroups_ok_or_asm A ly hinj p.groups hv with ⟨outs, ho⟩ | ⟨e, he⟩
+  · exact .inl ⟨policyProg A.archI (outs.flatten ++ [Instr.ret (enc p.default)]), by simp [ho]⟩
+  · exact .inr ⟨e, by simp [he]⟩
+
+/-- a group is free of the listed defects exactly when it is `GroupValid` (the positive form) -/
+theorem valid_of_no_defect (g : Group) (h : ¬ GroupDefect A g) : GroupValid A g := by
+  refine ⟨?_, ?_, ?_, ?_, ?_⟩
+  · intro n hn
+    cases ho : A.number n with
+    | some _ => rfl
+    | none => exact absurd (.unknownName n hn ho) h
+  · -- a duplicated name is a defect
+    by_cases hnd : g.names.Nodup
+    · exact hnd
+    · exfalso
+      have : ∃ l1 l2 n, g.names = l1 ++ n :: l2 ∧ n ∈ l2 := by
+        generalize g.names = names at hnd
+        induction names with
+        | nil => exact absurd List.nodup_nil hnd
+        | cons x rest ih =>
+          by_cases hx : x ∈ rest
+          · exact ⟨[], rest, x, rfl, hx⟩
+          · have hr : ¬ rest.Nodup := fun hr => hnd (List.nodup_cons.2 ⟨hx, hr⟩)
+            obtain ⟨l1, l2, n, he, hn⟩ := ih hr
+            exact ⟨x :: l1, l2, n, by simp [he], hn⟩
+      obtain ⟨l1, l2, n, he, hn⟩ := this
+      exact h (.duplicate l1 l2 n he hn)
+  · intro nc hnc
+    cases ho : A.number nc.name with
+    | some _ => rfl
+    | none => exact absurd (.unknownCondName nc hnc ho) h
+  · intro nc hnc hmem
+    exact h (.mixed nc.name hmem nc hnc rfl)
+  · intro nc hnc c hc
+    constructor
+    · apply Nat.le_of_not_gt; intro hgt
+      exact h (.argument nc hnc c hc hgt)
+    · cases ho : opOfString c.op with
+      | some _ => rfl
+      | none => exact absurd (.operation nc hnc c hc ho) h
 
 /-! ### non-vacuity: each defect is inhabited, and a valid policy is accepted -/
 
